@@ -739,20 +739,22 @@ def rule_signed_number_text(ctx, rep, rid: str) -> None:
     converted with int(), "-0" needs a result -0.0 of its own.  (2) Only the decimal literal may carry a sign: the
     pattern for 0x / 0o / 0b literals is matched against the text as it was trimmed, not against text from which a
     sign was cut off ("-0x10" is NaN)."""
-    rep.rule(rid, "where string-to-number conversion hands text that its grammar allows to be signed to int(), the function has a negative-zero result for a zero with a minus sign; and a pattern for radix literals (0x/0o/0b) is never matched against text from which a leading sign was removed", floor=2)
+    rep.rule(rid, "where string-to-number conversion hands text that its grammar allows to be signed to int() (directly, through float(), or through a helper that receives the text), the converting function has a negative-zero result for a zero with a minus sign; and a pattern for radix literals (0x/0o/0b) is never matched against text from which a leading sign was removed", floor=2)
     n = 0
-    for f in ctx.tree.funcs:
-        if isinstance(f.node, ast.Lambda) or f.module.name not in ("values", "context"):
-            continue
+    funcs = [f for f in ctx.tree.funcs if not isinstance(f.node, ast.Lambda) and f.module.name in ("values", "context", "lexer")]
+    by_name = {}
+    for f in funcs:
+        by_name.setdefault(f.name, []).append(f)
+    signed = {id(f): set() for f in funcs}
+    for f in funcs:
         matches = [c for c in f.own_nodes() if isinstance(c, ast.Call) and isinstance(c.func, ast.Attribute) and c.func.attr in ("match", "fullmatch") and isinstance(c.func.value, ast.Name) and c.args and isinstance(c.args[0], ast.Name)]
-        signed_text = set()
         for c in matches:
             pt = _pattern_text(ctx, f, c.func.value.id)
             if pt is None:
                 continue
             v = c.args[0].id
             if "[+-]" in pt or "[-+]" in pt or pt.startswith("-?"):
-                signed_text.add(v)
+                signed[id(f)].add(v)
             if "[xX]" in pt or "0x" in pt.lower():
                 # (2) the matched text must not have lost a sign
                 n += 1
@@ -762,9 +764,32 @@ def rule_signed_number_text(ctx, rep, rid: str) -> None:
                     rep.bad(rid, key, f"{f.qual} matches the radix-literal pattern against `{v}` after cutting a leading sign off it (line {cut[0].lineno}): only decimal literals may be signed, so '-0x10' and '+0b11' must be NaN but are accepted", f"{f.module.rel}:{c.lineno}")
                 else:
                     rep.ok(rid, key)
-        # (1) int() of possibly signed text
+        # the integer hook of the host JSON parser receives the token text, which the JSON grammar lets start with '-'
         for c in f.own_nodes():
-            if isinstance(c, ast.Call) and isinstance(c.func, ast.Name) and c.func.id == "int" and len(c.args) == 1 and isinstance(c.args[0], ast.Name) and (c.args[0].id in signed_text or (f.name in ("integer_token",) )):
+            if isinstance(c, ast.Call) and norm(c.func) == "json.loads":
+                for kw in c.keywords:
+                    if kw.arg == "parse_int" and isinstance(kw.value, ast.Name):
+                        for g in by_name.get(kw.value.id, []):
+                            if g.params():
+                                signed[id(g)].add(g.params()[0])
+    # signed text handed on to a helper: the helper's parameter is signed text too
+    for _ in range(4):
+        for f in funcs:
+            for c in f.own_nodes():
+                if isinstance(c, ast.Call) and isinstance(c.func, ast.Name) and c.func.id in by_name:
+                    for i, a_ in enumerate(c.args):
+                        if isinstance(a_, ast.Name) and a_.id in signed[id(f)]:
+                            for g in by_name[c.func.id]:
+                                if g.parent is None and i < len(g.params()):
+                                    signed[id(g)].add(g.params()[i])
+    # (1) int() of possibly signed text, or of the float() of it
+    for f in funcs:
+        st = set(signed[id(f)])
+        if not st:
+            continue
+        via_float = {t.id for a in f.own_nodes() if isinstance(a, ast.Assign) and isinstance(a.value, ast.Call) and norm(a.value.func) == "float" and a.value.args and isinstance(a.value.args[0], ast.Name) and a.value.args[0].id in st for t in a.targets if isinstance(t, ast.Name)}
+        for c in f.own_nodes():
+            if isinstance(c, ast.Call) and isinstance(c.func, ast.Name) and c.func.id == "int" and len(c.args) == 1 and isinstance(c.args[0], ast.Name) and c.args[0].id in (st | via_float):
                 n += 1
                 key = f"{f.qual}:int({c.args[0].id}):negative-zero"
                 has = any(isinstance(x, ast.UnaryOp) and isinstance(x.op, ast.USub) and isinstance(x.operand, ast.Constant) and x.operand.value == 0.0 and isinstance(x.operand.value, float) for x in f.own_nodes())
@@ -774,3 +799,67 @@ def rule_signed_number_text(ctx, rep, rid: str) -> None:
                     rep.bad(rid, key, f"{f.qual} converts text that may start with a minus sign with int({c.args[0].id}) and has no result -0.0: '-0' becomes +0 (a host int has no negative zero), while '-0.0' keeps its sign", f"{f.module.rel}:{c.lineno}")
     if n < 2:
         raise AnalysisError(f"{rid}: string-to-number conversion not recognised ({n} sites)")
+
+
+# ---- one function under two names -------------------------------------------------------------------------
+# ECMAScript defines these properties as the *same function object* as the global of that name
+SAME_FUNCTION = {"parseInt": "Number.parseInt is the global parseInt (ECMA-262 21.1.2.13)", "parseFloat": "Number.parseFloat is the global parseFloat (ECMA-262 21.1.2.12)"}
+
+
+def _registrations(ctx, names) -> Dict[str, List[Tuple[Func, ast.AST, int]]]:
+    """Where a built-in of one of the given names is installed: X.set("name", fn) and X["name"] = fn."""
+    out: Dict[str, List[Tuple[Func, ast.AST, int]]] = {n: [] for n in names}
+    for f in ctx.tree.funcs:
+        if isinstance(f.node, ast.Lambda) or f.module.name != "context":
+            continue
+        for n in f.own_nodes():
+            if isinstance(n, ast.Call) and isinstance(n.func, ast.Attribute) and n.func.attr == "set" and len(n.args) == 2 and isinstance(n.args[0], ast.Constant) and n.args[0].value in out:
+                out[n.args[0].value].append((f, n.args[1], n.lineno))
+            if isinstance(n, ast.Assign) and len(n.targets) == 1 and isinstance(n.targets[0], ast.Subscript) and isinstance(n.targets[0].slice, ast.Constant) and n.targets[0].slice.value in out:
+                out[n.targets[0].slice.value].append((f, n.value, n.lineno))
+    return out
+
+
+def _registered_function(ctx, f: Func, e: ast.AST) -> Optional[Func]:
+    if isinstance(e, ast.Name):
+        g: Optional[Func] = f
+        while g is not None:
+            if e.id in g.children:
+                return g.children[e.id]
+            g = g.parent
+        return ctx.tree.resolve_function_name(f.module, e.id)
+    if isinstance(e, ast.Attribute) and isinstance(e.value, ast.Name) and e.value.id in ("self", "ctx") and f.cls is not None:
+        return ctx.tree.find_method(f.cls, e.attr)
+    return None
+
+
+def _body_shape(g: Func) -> str:
+    """The statements of g without docstring and comments, with `self.`/`ctx.` receivers unified."""
+    body = [s for s in g.node.body if not (isinstance(s, ast.Expr) and isinstance(s.value, ast.Constant) and isinstance(s.value.value, str))]
+    return "\n".join(norm(s) for s in body).replace("ctx.", "self.")
+
+
+def rule_same_function_two_names(ctx, rep, rid: str) -> None:
+    rep.rule(rid, "a built-in that ECMAScript defines as the same function object under two names (Number.parseInt / parseInt, Number.parseFloat / parseFloat) is installed from one function, or from two functions with the same statements: a second copy with different statements answers differently for some argument", floor=2)
+    regs = _registrations(ctx, SAME_FUNCTION)
+    n = 0
+    for name, why in SAME_FUNCTION.items():
+        rs = regs[name]
+        if len(rs) < 2:
+            raise AnalysisError(f"{rid}: fewer than two installations of {name} found ({len(rs)})")
+        funcs = []
+        for f, e, ln in rs:
+            g = _registered_function(ctx, f, e)
+            if g is None:
+                raise AnalysisError(f"{rid}: {name} is installed from `{norm(e)}` in {f.qual}, which is not a function of the repository")
+            funcs.append((g, f, ln))
+        n += 1
+        key = f"{name}:one-function"
+        first = funcs[0][0]
+        other = next(((g, f, ln) for g, f, ln in funcs[1:] if g is not first and _body_shape(g) != _body_shape(first)), None)
+        if other is None:
+            rep.ok(rid, key, {"installed_from": sorted({g.qual for g, _, _ in funcs}), "why": why})
+        else:
+            g, f, ln = other
+            rep.bad(rid, key, f"{name} is installed from {first.qual} and from {g.qual}, whose statements differ: {why}, so the two answer differently for some argument (the copies of parseFloat disagreed on 'Infinity')", f"{f.module.rel}:{ln}")
+    rep.analysed["same_function_names"] = n
